@@ -15,10 +15,10 @@ MODEL = "amg"
 ASSUMPTIONS = [
     "transfer operators are taken from the implementation's hierarchy (property C04 covers them); coarse direct solve modelled as exact solve (C16)",
     "contraction is proved as strict decrease of the energy norm of every non-zero error (and |lambda| < 1 for every eigenvalue of I - BA that lies in the field); the step from there to the spectral radius (existence of an A-orthogonal eigenbasis over the reals) is not formalised",
-    "ILU(0)/Chebyshev smoothers inside the cycle: model linked into the amg driver for the correspondence, no energy / scaling theorem (oracle-only there)",
+    "ILU(0)/Chebyshev smoothers inside the cycle: model linked into the amg driver for the correspondence; no energy theorem for them (hypotheses of the cycle theorem); scaling: the Chebyshev sweep is proved (C02_chebyshev_scales), ILU(0) is covered by the scaling oracle on the implementation only",
     "scaling clause: proved for the model over any field (c <> 0, transfer operators given); on the implementation checked in exact arithmetic for c = 2^k and a few other c > 0 (all coarsenings build the SAME transfer operators from c*A) and in the double build bitwise for c = 2^k, |k| <= 40 (no overflow / underflow in the generated range)",
 ]
-RULE = "seeded SPD M-matrices (paths, grids, random graphs) x 4 coarsenings x {damped_jacobi, spai0, gauss_seidel, ilu0, chebyshev} x ncycle/npre/npost/pre_cycles/coarse_enough/max_levels/direct_coarse; scripts: apply f, apply g, apply a f + b g, apply f again, cycle with non-zero x, unit vectors for small n; every third case has a twin built from c*A (exact build) and every second case a pair A / 2^k A in the double build; non-trivial = non-zero output"
+RULE = "seeded SPD M-matrices (paths, grids, random graphs) x 4 coarsenings x {damped_jacobi, spai0, gauss_seidel, ilu0, chebyshev} x ncycle/npre/npost/pre_cycles/coarse_enough/max_levels/direct_coarse; scripts: apply f, apply g, apply a f + b g, apply f again, cycle with non-zero x, unit vectors for small n; every third case has a twin built from c*A (exact build; c = 2^k, |k| <= 40, 3, 5/7), plus 120 (quick) / 600 (thorough) pairs A / 2^k A on dyadic data in the double build compared bitwise, plus Ruge-Stuben twins at 2^-60 that exhibit the known finding C02-rs-absolute-eps; non-trivial = non-zero output"
 
 def bump(st, key): st["by_op"][key] = st["by_op"].get(key, 0) + 1
 def dot(u, v): return sum(a * b for a, b in zip(u, v))
@@ -26,6 +26,10 @@ def matvec(rows, x): return [sum(v * x[c] for c, v in rw) for rw in rows]
 
 SCALES = [F(2), F(1, 2), F(4), F(8), F(1, 16), F(1024), F(1, 4096), F(2) ** 20, F(2) ** 40, F(1, 2 ** 40), F(3), F(5, 7)]
 TINY = F(1, 2 ** 60)    # below the absolute threshold of ruge_stuben.hpp (known finding C02-rs-absolute-eps)
+
+def idprefix(tier, seed):
+    """case ids carry tier and seed, so that a replay file can be re-run under any VERIF_SEED"""
+    return "%s%d_" % (tier[0], seed)
 
 def twin_of(c, s, suffix="s"):
     """the same case built from s*A; apply right-hand sides unchanged, cycle right-hand side scaled
@@ -60,7 +64,7 @@ def make_cases(tier, seed):
             for i in range(n):
                 e = [F(0)] * n; e[i] = F(1); script.append(("apply", e, x0))
         damping = r.choice(["1/2", "3/4", "5/8", "-", "1"])
-        c = ac.Case("c%d" % k, co, rx, cfg, ac.rand_cprm(r, co), damping, n, rows, script)
+        c = ac.Case("%sc%d" % (idprefix(tier, seed), k), co, rx, cfg, ac.rand_cprm(r, co), damping, n, rows, script)
         c.meta = dict(a=a, b=b, units=units, sym=sym)
         cases.append(c)
     # scaling twins (their own random stream so that the base cases stay what they were)
@@ -90,13 +94,14 @@ def double_pairs(tier, seed):
         f = gen.dyvec(r, n); g = gen.dyvec(r, n); x0 = gen.dyvec(r, n); z = [F(0)] * n
         damping = r.choice(["1/2", "3/4", "5/8", "-", "1"])
         cprm = ac.rand_cprm(r, co)
-        base = ac.Case("d%d" % k, co, rx, cfg, cprm, damping, n, rows,
+        pre = idprefix(tier, seed)
+        base = ac.Case("%sd%d" % (pre, k), co, rx, cfg, cprm, damping, n, rows,
                        [("dump",), ("apply", f, z), ("apply", g, x0), ("cycle", f, x0)])
-        scaled = ac.Case("d%ds" % k, co, rx, cfg, cprm, damping, n, [[(j, v * s) for j, v in rw] for rw in rows],
+        scaled = ac.Case("%sd%ds" % (pre, k), co, rx, cfg, cprm, damping, n, [[(j, v * s) for j, v in rw] for rw in rows],
                          [("dump",), ("apply", f, z), ("apply", g, x0), ("cycle", [s * u for u in f], x0)])
         out.append((base, scaled, s))
         if co == "ruge_stuben" and k % 8 == 2 and n >= 3:
-            tiny = ac.Case("d%dt" % k, co, rx, cfg, cprm, damping, n, [[(j, v * TINY) for j, v in rw] for rw in rows],
+            tiny = ac.Case("%sd%dt" % (pre, k), co, rx, cfg, cprm, damping, n, [[(j, v * TINY) for j, v in rw] for rw in rows],
                            [("dump",), ("apply", f, z), ("apply", g, x0), ("cycle", [TINY * u for u in f], x0)])
             out.append((base, tiny, TINY))
     return out
@@ -145,6 +150,25 @@ def min_offdiag(o):
         break
     return best
 
+def zero_coarse_diagonal(o):
+    """does some level below the finest one have a zero (or missing) diagonal entry?"""
+    for seg in (o or "").split(" ; "):
+        if not seg.startswith("D "): continue
+        for lv in pdump(seg)[1:]:
+            if lv[1] is None: continue
+            for i, rw in enumerate(lv[1][2]):
+                d = [v for c, v in rw if c == i]
+                if not d or all((not isinstance(v, str)) and v == 0 for v in d): return True
+        break
+    return False
+
+def transfer_nonfinite(o):
+    """does some P or R of the hierarchy contain NaN / Inf?"""
+    for seg in (o or "").split(" ; "):
+        if not seg.startswith("D "): continue
+        return any(isinstance(v, str) for lv in pdump(seg) for M in lv[2:4] if M is not None for rw in M[2] for _, v in rw)
+    return False
+
 def compare_scaled(o, o2, s, kinds, pre_cycles):
     """o, o2: payloads of the base case and of the case built from s*A (cycle right-hand sides
     scaled by s); kinds: the script commands.  Returns None or (symptom, message); symptom is
@@ -191,13 +215,22 @@ def classify(fail):
     """signature of a failure.  Scaling failures: which coarsening, what differs, and whether the
     scaled matrix has off-diagonal entries below the ABSOLUTE threshold 2^-51 that Ruge-Stuben
     compares them with (known finding C02-rs-absolute-eps); everything else has no signature."""
+    nf = fail.get("nonfinite")
+    if nf: return dict(oracle="finite", coarsening=nf["coarsening"],
+                       degenerate_transfer=bool(nf["zero_coarse_diagonal"] or nf["transfer_nonfinite"]))
     sc = fail.get("scaling")
     if not sc: return {}
     return dict(oracle="scaling", coarsening=sc["coarsening"], symptom=sc["symptom"], below_rs_eps=sc["below_rs_eps"])
 
 def run(ctx, cases_override=None):
-    cases = make_cases(ctx["tier"], ctx["seed"])
-    dpairs = double_pairs(ctx["tier"], ctx["seed"])
+    tier, seed = ctx["tier"], ctx["seed"]
+    if cases_override:
+        # replay: regenerate the run the case comes from (ids are "<q|t><seed>_c<k>[s|t]")
+        import re
+        m = re.match(r"([qt])(\d+)_", cases_override[0].split(" ", 1)[0])
+        if m: tier, seed = {"q": "quick", "t": "thorough"}[m.group(1)], int(m.group(2))
+    cases = make_cases(tier, seed)
+    dpairs = double_pairs(tier, seed)
     if cases_override:
         ids = set(l.split(" ", 1)[0] for l in cases_override)
         # a twin needs its base case and vice versa
@@ -268,9 +301,20 @@ def run(ctx, cases_override=None):
         lines = list(dict((x.cid, x.impl_line()) for p in ps for x in p[:2]).values())
         out = ctx["run_driver"](ctx["cpp"][d], lines, timeout=1500)
         account(ctx, lines, out)
+        seen = set()
         for b, s2, s in ps:
-            st["oracle_checks"] += 1
             b0 = out.get(b.cid) or ""
+            # the preconditioner of an SPD M-matrix must be finite in binary64
+            if b.cid not in seen and b0.startswith("D "):
+                seen.add(b.cid); st["oracle_checks"] += 1; bump(st, "oracle:double-finite")
+                if any(w in seg for seg in b0.split(" ; ")[1:] for w in ("nan", "inf")):
+                    fails.append(dict(kind="counterexample", case=b.impl_line(), impl=b0[:300], model=None, op="amgd." + b.coarsening,
+                                      size=len(b.impl_line()), build="double",
+                                      nonfinite=dict(coarsening=b.coarsening, zero_coarse_diagonal=zero_coarse_diagonal(b0),
+                                                     transfer_nonfinite=transfer_nonfinite(b0)),
+                                      oracle=dict(statement="double build: apply / cycle of an SPD M-matrix returns NaN or Inf"),
+                                      theorem="C02 oracle on the implementation (double build): B f is finite for an SPD M-matrix"))
+            st["oracle_checks"] += 1
             res = compare_scaled(b0 or None, out.get(s2.cid), s, [cmd[0] for cmd in b.script], b.cfg["pre_cycles"])
             bump(st, "oracle:scaling-double")
             if b0.startswith("D ") and not b0.startswith("D 1 "): bump(st, "oracle:scaling-double-multilevel")
